@@ -577,6 +577,33 @@ func init() {
 			emit(hx(pick(r, heads) + pick(r, tails)))
 		}
 	}
+	// dangle: every token boundary of one statement per construct gets one of a set of short
+	// fragments inserted (a name and '=', a lone comma, a second operand, an opening bracket, ...):
+	// the places where a parser that treats "nothing here" and "something wrong here" alike
+	// silently drops input.  Exhaustive; n is ignored.
+	families["dangle"] = func(r *rng, n int, emit emitFn) {
+		templates := []string{
+			"T | where a == 1", "T | where a in (1, 2) and b", "T | where f(a, b)[0] > -c.d", "T | extend x = a + 1, b, y = f(c)",
+			"T | summarize count(), n = sum(a) by k, m = b", "T | summarize n = count()", "T | summarize by k", "T | summarize count(), by k",
+			"T | project a, b = c + 1", "T | sort by a desc nulls first, b asc", "T | order by a", "T | take 5", "T | limit n", "T | top 3 by a desc nulls last",
+			"T | count", "T | as x", "T | render piechart with (title = 'x', k = v)", "T | render table",
+			"T | join kind = inner (U | where b) on a, $left.x == $right.y", "T | join (U) on k | count", "let n = 1; T | take n", "let s = 'x'; let m = s; T | where m",
+			"T | where (a or b) and not(c)", "T | where a =~ 'x' or b !~ \"y\"", "T | where a[1] == `q r`.z", "T | where -a < +b * 2 % 3", "T | where iff(a, b, c) != strcat(d, e)", "T | where a == 1; ; U | count",
+		}
+		frags := []string{"n =", "=", ",", ", ,", "x", "x y", "1", "'s'", "(", ")", "()", "(x)", "[", "]", "[0]", ".", ". x", "by", "by k", "on", "on k", "in", "in (1)", "and", "or b", "+", "- *", "!", "==", "== 1", "|", "| count", ";", "asc", "desc", "nulls", "nulls first", "with", "with (a = 1)", "kind = inner", "$left", "`q`", "0x", "1e", "// c\n", "let", "let z = 1;"}
+		for _, t := range templates {
+			toks := parser.Scan(t)
+			cuts := []int{0}
+			for _, tk := range toks {
+				cuts = append(cuts, tk.Span.End)
+			}
+			for _, c := range cuts {
+				for _, f := range frags {
+					emit(hx(t[:c] + " " + f + " " + t[c:]))
+				}
+			}
+		}
+	}
 	families["prog-params"] = func(r *rng, n int, emit emitFn) {
 		g := &pgen{r: r, noLayout: true}
 		for i := 0; i < n; i++ {
